@@ -41,6 +41,7 @@ package goproxytest
 //@ extern (*archive/zip.Writer).Create(w, name) (f, err)
 //@   modifies gZipEntries
 //@   ensures gZipEntries == old(gZipEntries) + 1
+//@   ensures err == nil ==> f != nil
 //@ extern (*archive/zip.Writer).Close(w) (err)
 //@   pure
 //@ extern (io.Writer).Write(w, p) (n, err)
@@ -171,6 +172,10 @@ package goproxytest
 //@   at call filepath.WalkDir#1: requires root == name && gParsed == old(gParsed) + 2 && notExist(err)
 //@   ensures gParsed >= old(gParsed) + 1
 //@   ensures r != nil
+//@   at call txtar.ParseFile#1: bind gPErr1 = err
+//@   at call txtar.ParseFile#2: bind gPErr2 = err
+//@   at call filepath.WalkDir#1: bind gWErr = err
+//@   ensures unbox(r) != 0 ==> gPErr1 == nil || (notExist(gPErr1) && gPErr2 == nil) || (notExist(gPErr1) && notExist(gPErr2) && gWErr == nil)
 // The directory walk: the file read is the one being visited; directories add nothing.
 //@ pure func isDirEntry(e int) bool
 //@ extern (io/fs.DirEntry).IsDir(e) (r)
